@@ -1391,6 +1391,7 @@ fn main() {
         "C08" => c08(&mut out),
         "C13" => { c13(&mut out); proto::c13(&mut out); }
         "C15" => { c15(&mut out, thorough); proto::c15(&mut out); proto::c15_public_key(&mut out); }
+        "C16" => proto::c16(&mut out),
         "C19" => c19(&mut out),
         _ => {}
     }
